@@ -6,16 +6,20 @@ V = os.path.abspath(os.path.join(os.path.dirname(__file__), ".."))
 NOTE = ("Trusted: Coq 8.16.1 kernel/coqc and vm_compute (no native_compute); no axioms (Print Assumptions of every property "
         "theorem is checked to be 'Closed under the global context' on every run; the one exception is Props/C03float.v, which uses Flocq over Coq's reals "
         "and depends on the standard library's ClassicalDedekindReals.sig_forall_dec, sig_not_dec, FunctionalExtensionality.functional_extensionality_dep and Classical_Prop.classic); the translators py2gallina.py (arithmetic kernel), py2gallina_cache.py (cache decisions), "
-        "py2gallina_revise.py (recursion of ReviseAnno over data frames: its table of pandas idioms), py2gallina_guards.py (refusal guards as boolean functions), py2gallina_reader.py (loading protocol of DensityData over symbolic file names), py2gallina_writers.py (writers of the intermediates as file-action lists), py2gallina_store.py (constructor of the density store over h5py's require_dataset) and py2gallina_cf.py (queue/event loops as interaction programs); the "
+        "py2gallina_revise.py (recursion of ReviseAnno over data frames: its table of pandas idioms), py2gallina_guards.py (refusal guards as boolean functions), py2gallina_reader.py (loading protocol of DensityData over symbolic file names), py2gallina_writers.py (writers of the intermediates as file-action lists), py2gallina_store.py (constructor of the density store over h5py's require_dataset), py2gallina_overlap.py (the loop that fills the overlap arrays, as an assignment log), py2gallina_merge.py (recogniser of MergeData's summation: parameter sets, slices, labels, the triple loop, as a density-array log) and py2gallina_cf.py (queue/event loops as interaction programs); the "
         "correspondence harness (generators, drivers, abstraction, float rule); CPython/pandas/numpy/h5py. "
         "Modelled, not verified: int32/float32 narrowing, pandas/h5py semantics (tied by execution).")
 
 CHECKS = {
     "C01": dict(
-        technique="Coq proof (refinement model -> naive spec, induction over lists) + translated kernel equivalence (lia) + differential execution",
+        technique="Coq proof (refinement model -> naive spec, induction over lists) + translated kernel equivalence (lia) + the loop of OverlapWorker.calculate translated from /repo on every run and proved to fill exactly the labelled rows + differential execution",
         text="Theorems c01_cells/keys/names/windows/total over the Gallina model of the data path, for all inputs and window triples; "
              "tie 1: arithmetic kernel of gene_datum.py/overlap.py/revise_annotation.py/process_genome.py re-translated and proved equal to the model kernel on every run; "
              "the recursion of ReviseAnno (call_merge/merge_by_like and helpers) re-translated and proved equal to Model.Revise.revise; "
+             "c01_code_rows / c01_code_cells: the loop of OverlapWorker.calculate (with _reset, the filters, the index dictionaries, the slice functions) re-translated into an assignment log, which for unique known names and windows "
+             "holds at (gene index, window index) the per-TE overlaps of the gene of that name and that window - the terms the density numerator sums - and nothing else; "
+             "c01_merge_cells / c01_code_pipeline_cells: MergeData.sum (_process_sum, the three parameter sets of both axes, slices, labels) re-translated; in every order of the six summations the density cell at (axis, side, group index, window index, gene index) is the model's cell (numerator, divisor) of the group, gene and window of those names; "
+             "unit differentials: the translated loops vs the real OverlapWorker.calculate / MergeData.sum on small containers, every array cell; "
              "tie 2: generated annotation pairs through the real library stages (windows from the code's parse_algorithm_config) vs the model (vm_compute) and vs the brute-force statement.",
         design="DESIGN.md 6 C01"),
     "C02": dict(
@@ -34,7 +38,7 @@ CHECKS = {
         design="DESIGN.md 6 C03"),
     "C04": dict(
         technique="Coq proof (cells depend on the rows only as a multiset: Permutation) + differential execution over row orders",
-        text="Theorems c04_runs/c04_perm for all permutations of either file; each generated pair run in 4-6 row orders through the real stages, outputs compared with each other and with the model.",
+        text="Theorems c04_runs/c04_perm for all permutations of either file; each generated pair run in 4-6 row orders through the real stages, outputs compared with each other and with the model; the check also builds Props/C01code.v (translated loop of OverlapWorker.calculate: rows are addressed by gene NAME, so the position of a gene in the arrays is the only thing a row order can change).",
         design="DESIGN.md 6 C04"),
     "C05": dict(
         technique="Coq proof (locality of a chromosome's file; refusal iff chromosome sets differ) + _validate_split translated from /repo on every run and proved equal to the model's + differential execution",
@@ -46,12 +50,12 @@ CHECKS = {
         design="DESIGN.md 6 C06"),
     "C07": dict(
         technique="Coq proof (monotonicity and sub-additivity of the covered count; transported through the C01 refinement) + oracle-free consistency pass",
-        text="Theorems c07_total_ge_group/total_le_sum/order_le_sum_supers/super_le_order; every cell of every generated output checked for the four relations on reconstructed counts, plus model correspondence.",
+        text="Theorems c07_total_ge_group/total_le_sum/order_le_sum_supers/super_le_order; every cell of every generated output checked for the four relations on reconstructed counts, plus model correspondence; the check also builds Props/C01code.v and Props/C01merge.v (translated loop of OverlapWorker.calculate; translated MergeData.sum: the mask of a group selects the TEs whose column equals the group's NAME) and runs the unit differential of the translated summation against the real MergeData.sum.",
         design="DESIGN.md 6 C07"),
     "C08": dict(
         technique="Coq proof (array position <-> labels: first/last-occurrence index functions return the labelled cell; genes of a file) + exhaustive queries through the real reader and table helpers",
         text="Theorems c08_lookup/unknown/table/bijection/genes over the layout + reader model; every (gene, group, window, direction) query of every generated file through DensityData + get_specific_slice "
-             "and the add_* table helpers (gene table in its own row order) compared with the array cell of the labels and with the C01 value; group names differing by case / non-ASCII.",
+             "and the add_* table helpers (gene table in its own row order) compared with the array cell of the labels and with the C01 value; group names differing by case / non-ASCII; the check also builds Props/C01code.v (translated loop of OverlapWorker.calculate: the row at gene index i, window index j belongs to names[i], windows[j]; nothing outside the index ranges is assigned) and Props/C01merge.v (translated MergeData.sum: the density cell at group index t, window index j, gene index i belongs to the group, window and gene of those names).",
         design="DESIGN.md 6 C08"),
     "C09": dict(
         technique="Coq proof (swap of first-occurrence columns for duplicate-free minus names = strand-aware view, induction over the name list) + _swap_strand_vals / _index_of_gene / DensityData.__init__ translated from /repo on every run and proved equal to the model + column-by-column comparison on real files",
